@@ -56,6 +56,7 @@ EmptyIndex(names, disk) ==
     [ defs    |-> [n \in names |-> <<>>],        \* definitions: name -> Vec<Def> (registration order)
       fdefs   |-> [f \in Files |-> {}],          \* file_definitions
       usages  |-> [f \in Files |-> <<>>],        \* usages: file -> Vec<Usage>
+      undecl  |-> [f \in Files |-> <<>>],        \* undeclared_fixtures: file -> findings computed AT ANALYSIS TIME
       ubf     |-> [n \in names |-> <<>>],        \* usage_by_fixture
       cached  |-> [f \in Files |-> NoMod],       \* file_cache (text last handed to analysis)
       lastOk  |-> [f \in Files |-> NoMod],       \* ghost: text of the last SUCCESSFUL analysis (repaired branches only)
@@ -80,8 +81,32 @@ ItemUsages(f, i, it) ==
                           \o [j \in 1..Len(it.marks) |-> UseRec(f, i, "m", j, it.marks[j])]
                           \o [j \in 1..Len(it.ind) |-> UseRec(f, i, "i", j, it.ind[j])]
                           \o [j \in 1..Len(it.deps) |-> UseRec(f, i, "p", j, it.deps[j])]
+      [] it.k = "testb" -> [j \in 1..Len(it.deps) |-> UseRec(f, i, "p", j, it.deps[j])]
       [] it.k = "pmark" -> [j \in 1..Len(it.marks) |-> UseRec(f, i, "pm", j, it.marks[j])]
       [] OTHER -> <<>>
+
+(* undeclared-fixture scan (undeclared.rs:28-60, 300-345, 408-435): while the module is walked, every name a test *)
+(* body uses that is neither a declared parameter nor a module-level name of the file is looked up in the index AS *)
+(* IT IS AT THAT MOMENT: a definition in the same file, in a conftest.py of an ancestor directory, third-party or  *)
+(* plugin makes it a finding.  (Imports of conftest files are not consulted: KF-C17-ignores-conftest-imports.)     *)
+\* analyzer.rs collect_module_level_names: imports, classes, assignments and functions that are NOT fixtures
+ModuleLevelNames(its) ==
+    { its[i].name : i \in { j \in 1..Len(its) : its[j].k \in {"helper", "test", "testb", "imp", "impas"} } }
+ImplIsAvailable(ix, f, b) ==
+    /\ b \in DOMAIN ix.defs
+    /\ \E j \in 1..Len(ix.defs[b]) :
+          LET d == ix.defs[b][j] IN
+          \/ d.file = f
+          \/ (RoleOf[d.file] = "conftest" /\ DirOf[d.file] \in { Chain(DirOf[f])[k] : k \in 1..Len(Chain(DirOf[f])) })
+          \/ d.third \/ d.plugin
+UndeclOf(ix, f, its, i) ==
+    LET it == its[i]
+        flagged == { j \in 1..Len(it.ind) :
+                       /\ \A k \in 1..Len(it.deps) : it.deps[k] # it.ind[j]
+                       /\ it.ind[j] \notin ModuleLevelNames(its)
+                       /\ ImplIsAvailable(ix, f, it.ind[j]) }
+    IN  IF it.k # "testb" THEN <<>>
+        ELSE SelectSeq([j \in 1..Len(it.ind) |-> [idx |-> i, j |-> j, name |-> it.ind[j]]], LAMBDA r : r.j \in flagged)
 
 RECURSIVE AppendUsages(_, _)
 AppendUsages(ubf, us) ==
@@ -98,13 +123,14 @@ WalkItems(ix, f, its, i) ==
                                     !.fdefs[f] = @ \cup {it.name},
                                     !.version = @ + 1]
                     ELSE ix
-             ix2 == [ix1 EXCEPT !.usages[f] = @ \o us, !.ubf = AppendUsages(@, us)]
+             ix2 == [ix1 EXCEPT !.usages[f] = @ \o us, !.ubf = AppendUsages(@, us),
+                                !.undecl[f] = @ \o UndeclOf(ix1, f, its, i)]
          IN  WalkItems(ix2, f, its, i + 1)
 
 AnalyzeFnD(ix, D, f, m, cleanup) ==
     LET ix0 == [ix EXCEPT !.cached[f] = m]
     IN  IF ~m.valid THEN ix0                                  \* parse failure: keep everything else
-        ELSE LET ix1 == [ix0 EXCEPT !.lastOk[f] = m, !.usages[f] = <<>>,
+        ELSE LET ix1 == [ix0 EXCEPT !.lastOk[f] = m, !.usages[f] = <<>>, !.undecl[f] = <<>>,
                                     !.ubf = [n \in DOMAIN @ |-> SelectFile(@[n], f)]]
                  ix2 == IF cleanup
                         THEN [ix1 EXCEPT !.defs = [n \in DOMAIN @ |->
